@@ -66,7 +66,7 @@ CHECKS = {
  "C13": ("bounded exhaustive enumeration: 8 version specifiers x 258 words x 7 identifier positions, the default set, all keyword-region programs <= n (nested, sequential, unclosed, with `define segments), leading-directive pairs, `define of every directive name; plus the invariant 'no SimpleIdentifier is reserved in the set in force' recomputed from the directive nodes on every tree of the corpus and the reference grammar",
          "Every (version, word, position) and every region program of the stated finite space is parsed; acceptance and the identifier leaves are compared with independently typed keyword tables.",
          "Trusted: models/keywords/*.txt (typed from Annex B / Table 22-x, not read from keywords.rs). Ten known findings, each a specific (position, word) pair."),
- "C17": ("bounded exhaustive sweep: inputs (seeds, default sentence of every grammar rule, keyword-region programs also opened inside a construct, left-recursive list shapes of 1..8 elements, ordered pairs of raw entry-point calls on one buffer, kept directives next to comments in incomplete mode) x memo policies (FIFO capacities incl. the shipped one, periodic flush, forced misses) chosen through the verif hook; result compared with the unbounded-table run; hook counters prove that eviction happened",
+ "C17": ("bounded exhaustive sweep: inputs (seeds, default sentence of every grammar rule, keyword-region programs also opened inside a construct and in the white space behind a word of a declaration, left-recursive list shapes of 1..8 elements, ordered pairs of raw entry-point calls on one buffer, kept directives next to comments in incomplete mode) x memo policies (FIFO capacities incl. the shipped one, periodic flush, forced misses) chosen through the verif hook; result compared with the unbounded-table run; hook counters prove that eviction happened",
          "Every (input, policy) pair of the stated finite space is executed on the real parser with the real nom-packrat table behind a counting wrapper.",
          "Trusted: the verif wrapper delegates to nom_packrat::PackratStorage. Divergent pairs are attributed to the one known finding only if a child-process re-run in a diagnostic mode (flag-carrying spans bypass the table) reproduces the reference result."),
  "C19": ("stateless model checking of the real code under a token-passing scheduler over real OS threads: all schedules with <= 1 (quick) / 2-3 (thorough) preemptions at the hook points of parser and preprocessor for 2- and 3-thread combinations of 14 colliding thread bodies; every execution runs to completion and is compared with the solo results; failing schedules are replayed twice",
